@@ -117,6 +117,8 @@ func OptPrecision(eps float64) OptSet {
 	return OptSet{Name: fmt.Sprintf("Precision(%g)", eps), Opts: func() []jd.Option { return []jd.Option{jd.Precision(eps)} }, Reading: ref.List, Eps: eps, HasEps: true}
 }
 
+var OptKeysMerge = OptSet{Name: "SetKeys(id)+MERGE", Opts: func() []jd.Option { return []jd.Option{jd.SetKeys("id"), jd.MERGE} }, Reading: ref.Set, Merge: true, Keys: []string{"id"}}
+
 var AllDiffOpts = []OptSet{OptNone, OptSetO, OptMset, OptKeys1, OptKeys2, OptSetKeys1, OptMerge, OptSetMerge, OptMsMerge}
 
 // PairFor generates a document pair satisfying the option set's stated
